@@ -2,11 +2,11 @@
 (* Bounded instances of Router.  The instance's universe (template segments, path-segment
    representatives, the trusted converter table, invalid field names) is written by the harness
    (checks/c01.py) as JSON and read here, because the converter table must come from CPython:
-        IOEnv.ROUTER_UNIVERSE = file with [ts, ps, conv, bad]
+        IOEnv.ROUTER_UNIVERSE = file with [ts, ps, conv, bad, mconv]
    X*  exhaustive instance (no history; VIEW drops `last`)        -> leg M
    EmitTable  on the same instance: the decision table of every state        -> leg A (decision table)
    A*  add/find histories with a history variable `h`             -> leg A (-simulate)        *)
-EXTENDS RouterUniverse, Router, Randomization
+EXTENDS RouterUniverse, Router, Randomization, FiniteSets
 CONSTANTS MaxDepth, MaxPathLen, Depth
 VARIABLE h
 
@@ -40,6 +40,10 @@ XNext == XAccept \/ XRejectInvalid \/ XRejectConflict \/ XRejectPathNotLast \/ X
 (* these two depend on `accepted` only (given FindIsIdealDFS); every value of `accepted` is reached by a
    history without rejected adds and without compile flags, so they are evaluated there *)
 Canonical == finder.lazy /\ nadds = Len(accepted)
+(* constant level: every multi-field segment of the instance against every representative (line feeds included):
+   a split is what SplitSound says it is (`nadds >= 0` only makes it a state predicate for TLC).  MC_RouterBadLF.cfg sets LFBlind (fields take line feeds): must fail. *)
+MCTrue == TRUE
+XSplitSound == nadds >= 0 => \A i \in {j \in DOMAIN MCTS : KindOf[j] = "cx"} : \A s \in Range(U.ps) : SplitSound(MCTS[i], s)
 XWalkIsBestMatch == Canonical => WalkIsBestMatch
 XNoLeak          == Canonical => NoLeak
 
@@ -48,7 +52,15 @@ XNoLeak          == Canonical => NoLeak
 Hits  == LET ft == FinderTree IN
          {x \in {Rec("find", <<>>, 0, FALSE, p, "hit", Lookup(ft, p)) : p \in Paths} : x.found}
 Outs  == {[t |-> tp, out |-> Outcome(tree, tp)] : tp \in Templates}
-EmitTable == Canonical => PrintT(ToJson([acc |-> accepted, outs |-> Outs, hits |-> Hits]))
+(* the paths on which the converter of a trailing multi-segment field of some accepted route vetoes after everything
+   above it matched (the walk has to go on elsewhere); how many of them are hits of another route *)
+Vetoed == LET routes == {n \in Routes(accepted) : Last(n) \in PathSegs} IN
+          {p \in Paths : LET q == Norm(p) IN \E n \in routes :
+               /\ Len(q) >= Len(n) /\ \A i \in 1..(Len(n) - 1) : MatchAt(n[i], q[i]).ok
+               /\ ConvertRest(Seg(Last(n)).items[1].c, SubSeq(q, Len(n), Len(q))) = None}
+EmitTable == Canonical => LET ft == FinderTree  v == Vetoed IN
+             PrintT(ToJson([acc |-> accepted, outs |-> Outs, hits |-> Hits, nveto |-> Cardinality(v),
+                            nvetohit |-> Cardinality({p \in v : Lookup(ft, p).found})]))
 
 (* ---- history instance for -simulate (leg A): add/find histories of a larger universe.  Every step
    offers a few randomly drawn candidates instead of the whole (large) sets: templates that extend an
